@@ -174,6 +174,31 @@ def control_serial(F, R):
         R.ob('C04.control-serial', '%s|BufferService::new(16, ..)' % ver, buf == [16], 'control buffer sizes %s' % buf)
 
 
+def parked_polled(F, R):
+    """Dispatcher::poll drives the parked (dispatcher-driven) handler future on every poll, whatever its
+    position in the response queue: a gate on `response_idx == base` loses its wake-up when an older call is
+    still running, and nothing polls it again."""
+    poll = F.one(r'^<io::Dispatcher<P, C, U, E> as std::future::Future>::poll$')
+    takes = [bi for bi, t in poll.calls_to(r'^std::cell::Cell::<T>::take$') if (call_recv_path(poll, t, 0) or ('',))[-1] == 'response']
+    if not takes:
+        raise AnchorLost('poll: state.response.take()')
+    first = min(takes, key=lambda x: len(poll.dom.get(x, ())))
+    # conditions between entry and the take: only the control readiness poll (its Pending returns)
+    gates = []
+    for sb in poll.dom.get(first, ()):
+        t = poll.blocks[sb]['term']
+        if t['k'] != 'switch' or sb == first:
+            continue
+        og = Origin(poll).of_operand(t['discr'])
+        if any(l[0] == 'call' and re.search(r'Cell::<T>::get$', l[1] or '') for l in og) or any(l[0] == 'binop' and l[1] in ('Eq', 'Ne', 'Lt', 'Le', 'Gt', 'Ge') for l in og):
+            # a comparison of dispatcher state decides whether the parked future is polled
+            succs = [tb for _, tb in t['targets']] + [t['otherwise']]
+            if any(first not in poll.reachable(x) for x in set(succs)) or len({x for x in set(succs) if first in poll.reachable(x, avoid=[first]) or x == first}) < len(set(succs)):
+                gates.append(sb)
+    R.ob('C04.queue-head', 'poll|parked-response-future-polled-unconditionally', not gates,
+         'polling of the parked handler future is gated by a comparison of queue indices: when it is not at the head its wake-up is consumed without polling it and its response is withheld until an unrelated event', poll.loc(gates[0]) if gates else poll.loc(first))
+
+
 def no_bypass(F, R):
     """Responses reach the wire only through the return value of the dispatcher calls (which the io layer
     orders): the reviewed direct writes of C03.single-writer are the only ones."""
@@ -189,6 +214,7 @@ def no_bypass(F, R):
 
 def run(F, R):
     no_bypass(F, R)
+    parked_polled(F, R)
     cs = queue_head(F, R)
     slot_per_call(F, R, cs)
     control_serial(F, R)
